@@ -231,6 +231,47 @@ def run_factor(ctx, cuqi, r, thorough):
                         doc = np.linalg.inv(Dm) if kind in ("cov", "sqrtcov") else Dm
                     cases.append({"valid": True, "dim": dim, "kind": kind, "val": getattr(spa, fmt + "_matrix")(val), "tok": "m:" + qm(val),
                                   "tag": f"{kind}-{form}-sparse-{fmt}", "doc": doc, "fmt": fmt})
+    # integer-valued parameters in integer dtypes / python ints / lists of ints, every kind x every form
+    # (np.reciprocal, ** and / keep or change dtypes differently: the numbers, not the dtype, specify the Gaussian)
+    r_i = np.random.RandomState(ctx.seed + 60611)
+    DTF = ["int64", "int32", "int16", "pylist", "uint8"]
+    ti = 0
+    for rep in range(1 if not thorough else 8):
+        for kind in KINDS:
+            for shape in ("scalar", "vector", "diag", "full"):
+                dim = int(r_i.randint(2, 6))
+                form = DTF[(ti + ctx.seed) % len(DTF)]; ti += 1
+                if form == "uint8" and shape == "full":
+                    form = "int16"                       # (negative entries)
+                cast = (lambda a: np.asarray(a).astype(int).tolist()) if form == "pylist" else (lambda a, form=form: np.asarray(a).astype(form))
+                if shape == "scalar":
+                    v = int(r_i.choice([1, 2, 3, 4, 5, 9]))
+                    val = v if form == "pylist" else np.array([v]).astype(form)
+                    tok = ("s:" if form == "pylist" else "v:") + q(float(v)); dv = np.full(dim, float(v))
+                elif shape in ("vector", "diag"):
+                    dv = r_i.choice([1, 2, 3, 4, 5, 9], size=dim).astype(float)
+                    if not np.any(dv > 1):
+                        dv[0] = 3.0
+                    val = cast(dv if shape == "vector" else np.diag(dv))
+                    tok = ("v:" + qv(dv)) if shape == "vector" else ("m:" + qm(np.diag(dv)))
+                if shape != "full":
+                    doc = np.diag({"cov": 1.0 / dv, "prec": dv, "sqrtcov": 1.0 / dv ** 2, "sqrtprec": dv ** 2}[kind])
+                else:
+                    U = np.triu(r_i.randint(-1, 2, size=(dim, dim))).astype(float)
+                    for i_ in range(dim):
+                        U[i_, i_] = float(r_i.choice([1, 2, 3]))
+                    U[0, dim - 1] = 1.0
+                    if kind in ("cov", "prec"):
+                        M_ = U.T @ U
+                    elif kind == "sqrtprec":
+                        M_ = U
+                    else:
+                        M_ = U + U.T + 6.0 * np.eye(dim)          # symmetric sqrtcov: S Sᵀ = Sᵀ S
+                    val = cast(M_); tok = "m:" + qm(M_)
+                    doc = {"cov": lambda: np.linalg.inv(M_), "prec": lambda: M_, "sqrtcov": lambda: np.linalg.inv(M_.T @ M_), "sqrtprec": lambda: M_.T @ M_}[kind]()
+                # narrow integer dtypes: numpy evaluates sqrt / divisions of int16 / uint8 arrays in float32 (observation) — compared to 1e-6
+                cases.append({"valid": True, "dim": dim, "kind": kind, "val": val, "tok": tok, "tag": f"{kind}-{shape}-{form}", "doc": doc,
+                              "tol": 1e-6 if form in ("int16", "uint8") else None})
     for t in range(n_invalid):
         dim = int(r.randint(2, 6))
         dim, kind, val, tok, tag = gen_invalid(r, dim)
@@ -283,6 +324,8 @@ def run_factor(ctx, cuqi, r, thorough):
                 ctx.fail(key + ":model-refusal", desc, c["doc"].tolist(), None if G is None else G.tolist(), "LᵀL is not the documented precision")
             continue
         size = int(toks[2])
+        TOLc = c.get("tol") or TOL_F
+        TOLd = c.get("tol") or 1e-9
         nfail = len(ctx.failures)
         dkeys = []
         if L.ndim != 2 or L.shape != (size, size):
@@ -293,22 +336,22 @@ def run_factor(ctx, cuqi, r, thorough):
             G = L.T @ L
             if toks[0] == "ok":
                 Lm = np.array([[float(v) for v in row] for row in pm(toks[3])])
-                if rel(G, Lm.T @ Lm) > TOL_F:
+                if rel(G, Lm.T @ Lm) > TOLc:
                     ctx.disagree(key + ":gram", desc, (Lm.T @ Lm).tolist(), G.tolist(), "LᵀL of Gaussian.sqrtprec vs the model's exact factor")
                     dkeys.append(key + ":gram")
-                elif rel(L, Lm) > TOL_F:
+                elif rel(L, Lm) > TOLc:
                     bump("soft_mismatch", "factor-differs:" + tag)
                     ctx.note(f"{key}: the implementation's factor differs from the model's but squares to the same precision (other square root)")
             else:
                 S = np.array([[float(v) for v in row] for row in pm(toks[4])])
-                bad = rel(G @ S, np.eye(size)) > 1e-9 if toks[3] == "1" else rel(G, S) > TOL_F
+                bad = rel(G @ S, np.eye(size)) > TOLd if toks[3] == "1" else rel(G, S) > TOLc
                 if bad:
                     ctx.disagree(key + ":gram", desc, S.tolist(), G.tolist(), "LᵀL of Gaussian.sqrtprec vs the matrix the model says it must equal / invert")
                     dkeys.append(key + ":gram")
         # oracle (implementation only): the factor squares to the documented precision
         doc = c["doc"]
         okey = key + (":cov" if "sqrtcov-full-nonsym" in tag else ":doc-precision")
-        if G is None or G.shape != doc.shape or rel(G, doc) > 1e-9:
+        if G is None or G.shape != doc.shape or rel(G, doc) > TOLd:
             ctx.fail(okey, desc, doc.tolist(), None if G is None else G.tolist(),
                      "Gaussian.sqrtprec does not square to the precision of the specified Gaussian (LᵀL ≠ documented precision)")
         new = {f_["key"] for f_ in ctx.failures[nfail:]}
@@ -335,4 +378,28 @@ def run_factor(ctx, cuqi, r, thorough):
             else:
                 bump("soft_mismatch", "kinds")
                 ctx.note(f"Gaussian({sorted(kw)}): model {o}, implementation {got} (argument validation; not demanded by the property)")
+    # dense full matrices of dimension > MIN_DIM_SPARSE (eigen-decomposition route) at absolute scales 2^-40 .. 2^20:
+    # oracle only (float64 reference of the documented precision, purely relative) — the exact model is too slow at this size
+    r_l = np.random.RandomState(ctx.seed + 60612)
+    scales = [-40, -30, -20, -10, 0, 10, 20]
+    nbad = 0
+    for kind in KINDS:
+        for j, k2 in enumerate(scales if thorough else [scales[(ctx.seed + KINDS.index(kind)) % 7], -40 if kind in ("cov", "sqrtcov") else 20, -30]):
+            dim = int(r_l.randint(76, 82))
+            Bm = np.diag(3.0 + r_l.rand(dim)) + 0.8 * np.diag(r_l.rand(dim - 1) + 0.2, 1) + 0.3 * np.diag(r_l.rand(dim - 5) + 0.2, 5)
+            Bm = Bm + Bm.T if kind != "sqrtprec" else Bm
+            f = 2.0 ** (k2 if kind in ("cov", "prec") else k2 // 2)
+            val = Bm * f
+            D_ = val if kind in ("cov", "prec") else val.T @ val
+            doc = np.linalg.inv(D_) if kind in ("cov", "sqrtcov") else D_
+            tag = f"large:{kind}-full-dense{dim}:scale2^{k2}"
+            desc = {"dim": dim, "kind": kind, "scale_log2": k2, "matrix": "s·(banded SPD), seed stream RandomState(seed+60612)", "first_row": val[0, :6].tolist()}
+            ctx.case("factor-large", desc)
+            st, L = impl_factor(cuqi, dim, kind, val)
+            if st != "ok":
+                ctx.fail(f"factor:{tag}:refusal", desc, "a square-root precision", st + " " + str(L), "Gaussian refuses a valid dense specification of dimension > 75")
+                continue
+            if L.ndim != 2 or L.shape[1] != dim or rel(L.T @ L, doc) > 1e-8:
+                ctx.fail(f"factor:{tag}:doc-precision", desc, np.diag(doc)[:6].tolist(), (np.diag(L.T @ L)[:6].tolist() if L.ndim == 2 else None),
+                         "Gaussian.sqrtprec does not square to the precision of the specified Gaussian (dense, dimension > 75, LᵀL vs inverse covariance, relative)")
     ctx.extra_cov["factor_stream"] = hist
